@@ -154,26 +154,40 @@ def run(F, R, tier):
     R.ob("fixed-size-reads-exact", "global header, record headers and payloads are read with read_exact", n_exact >= 3, "%d read_exact calls" % n_exact)
     # ---- (d) EOF mapping siblings ------------------------------------------------------------------------------------------
     def eof_handling(fn):
+        """[(polarity, what is done when the error IS end-of-input, what is done otherwise)] for every test of
+        ErrorKind::UnexpectedEof in fn: an `if`, or the guard of a match arm"""
         g = F.fn(fn)
         if g is None:
             return None
         out = []
+        rx = re.compile(r"^\(?(\w+)\.kind\(\) (==|!=) (?:io::)?ErrorKind::UnexpectedEof\)?$")
         for x in H.walk(H.body_of(g)):
-            if x.get("k") == "if" and "ErrorKind::UnexpectedEof" in H.render(x["c"]):
-                out.append((H.render(x["c"]), H.render(x["t"])[:60], H.render(x.get("e"))[:60] if "e" in x else None, x))
+            if x.get("k") == "if":
+                m = rx.match(H.render(x["c"]))
+                if m:
+                    t, e = H.render(x["t"])[:80], (H.render(x.get("e"))[:80] if "e" in x else "<falls through>")
+                    out.append((H.render(x["c"]),) + ((t, e) if m.group(2) == "==" else (e, t)))
+            if x.get("k") == "match" and not H.is_try(x):
+                for ai, a in enumerate(x["arms"]):
+                    if a.get("guard") is not None:
+                        m = rx.match(H.render(a["guard"]))
+                        if m:
+                            rest = [H.render(b["body"])[:80] for b in x["arms"][ai + 1:] if {H.last(v) for v in H.pat_variants(b["pat"])} & {"Err", "*"}]
+                            t, e = H.render(a["body"])[:80], (rest[0] if rest else "<no other Err arm>")
+                            out.append((H.render(a["guard"]),) + ((t, e) if m.group(2) == "==" else (e, t)))
         return g, out
-    want = {BF + "builtin_pcap_read_next": ("(e.kind() == ErrorKind::UnexpectedEof)", "return v1::Ok(Rc::new(Object::Null))"),
-            BF + "builtin_pcap_read_all": ("(e.kind() == ErrorKind::UnexpectedEof)", "break"),
-            "run_filters": ("(err.kind() != ErrorKind::UnexpectedEof)", "io::stderr()")}
-    for fn, (cond, act) in want.items():
+    want = {BF + "builtin_pcap_read_next": ("Object::Null", None),
+            BF + "builtin_pcap_read_all": ("break", None),
+            "run_filters": (None, "io::stderr()")}
+    for fn, (on_eof, otherwise) in want.items():
         r = eof_handling(fn)
         if not R.anchor(fn, r is not None):
             continue
         g, hs = r
-        ok = len(hs) == 1 and hs[0][0] == cond and act in hs[0][1]
-        R.ob("eof-mapping", H.last(fn), ok, "EOF test: %s → %s" % (hs[0][0] if hs else None, hs[0][1] if hs else None), F.loc(g))
+        ok = len(hs) == 1 and (on_eof is None or on_eof in hs[0][1]) and (otherwise is None or (otherwise in hs[0][2] and otherwise not in hs[0][1]))
+        R.ob("eof-mapping", H.last(fn), ok, "EOF test: %s; at end of input: %s; otherwise: %s" % (hs[0] if hs else (None, None, None)), F.loc(g))
         if fn.startswith(BF):
             # any other error becomes an error object
             objs = [x for x in H.walk(H.body_of(g)) if x.get("k") == "call" and H.last(x.get("ctor", "")) == "Err"
-                    and "object::Object::Err" in x.get("ctor", "") and "ErrorObj::IO(e)" in H.render(x)]
+                    and "object::Object::Err" in x.get("ctor", "") and re.search(r"ErrorObj::IO\(\w+\)", H.render(x))]
             R.ob("eof-mapping", H.last(fn) + ": other errors → error object", len(objs) >= 1, "%d error-object results" % len(objs), F.loc(g))
